@@ -398,6 +398,45 @@ var c09Surface = []string{
 	`# only a comment`, `1 # trailing`, "1 #c\\\n+ 2\n+ 3", "# a\r1", `"unterminated`, `"bad \q escape"`, `1 +`, `(1`, `[1, 2`, `{a: }`, `.a.`, `. a`, `1 2`, `$`, `@`, `.[`, `if 1 then 2`, `reduce . as $x (1)`, `def f: 1`, `1 as x | 2`, `import "a"; 1`, `{(1): 2, ("a"): 3}`, `.a as [$x, $x] | $x`, `0x10`, `1.2.3`, `..1`, `. .`, `.."a"`, `..[0]`, `. .[0]`, `. .a`, `. ."a"`, `. .[1:2].b`, `. .["a"]?`, `.. .a`, `1 .a`, `.a .b`,
 }
 
+// c09StringLit builds a string literal (optionally with interpolations and a format) from a hostile character
+// alphabet: every C0 control, DEL, C1 controls, soft hyphen, line/paragraph separators, private use, noncharacters,
+// tag characters beyond the BMP, quotes, backslashes, slashes — spelled raw or through escapes.
+func c09StringLit(r *rand.Rand) string {
+	chars := []string{"\x01", "\x02", "\x07", "\x08", "\x0b", "\x0c", "\x0e", "\x1b", "\x1f", "\x7f", "\u0080", "\u0085", "\u009f", "\u00ad", "\u2028", "\u2029", "\ue000", "\ufffe", "\uffff", "\U000e0001", "\U0010ffff", "\U0001f600",
+		"a", "é", "日", " ", "'", "/", "#", "(", ")", "\\(", "$", "@", "`"}
+	escapes := []string{`\u0001`, `\u0000`, `\u001f`, `\u007f`, `\u0080`, `\u00ad`, `\u2028`, `\ud83d\ude00`, `\udb40\udc01`, `\ufffe`, `\n`, `\t`, `\r`, `\b`, `\f`, `\"`, `\\`, `\/`, `\u00e9`, `\u000b`, `\u001b`}
+	var sb strings.Builder
+	if r.IntN(5) == 0 {
+		sb.WriteString([]string{"@json ", "@base64 ", "@text ", "@html ", "@sh "}[r.IntN(5)])
+	}
+	sb.WriteByte('"')
+	n := 1 + r.IntN(5)
+	interp := r.IntN(2) == 0
+	for i := 0; i < n; i++ {
+		switch r.IntN(4) {
+		case 0:
+			sb.WriteString(escapes[r.IntN(len(escapes))])
+		case 1:
+			if interp {
+				sb.WriteString(`\(` + []string{"1", ".", ".a", "\"x\"", "1 + 2", "[.]", "\"\\u0001\\(2)\""}[r.IntN(7)] + `)`)
+				break
+			}
+			fallthrough
+		default:
+			ch := chars[r.IntN(len(chars))]
+			if ch == "\\(" {
+				ch = "("
+			}
+			sb.WriteString(ch)
+		}
+	}
+	if interp && r.IntN(2) == 0 {
+		sb.WriteString(`\(0)`)
+	}
+	sb.WriteByte('"')
+	return sb.String()
+}
+
 func c09Laws() []c09Law {
 	var laws []c09Law
 	add := func(name, imp, exp string) { laws = append(laws, c09Law{name, imp, exp}) }
@@ -496,6 +535,21 @@ func init() {
 			}
 			for _, q := range gen.AllCorpusQueries() {
 				both(q)
+			}
+			for i, k := 0, c.N(6000, 150000); i < k; i++ {
+				lit := c09StringLit(r)
+				switch r.IntN(6) {
+				case 0:
+					both("{" + lit + ": 1}")
+				case 1:
+					both(". as {" + lit + ": $x} | $x")
+				case 2:
+					both("." + lit)
+				case 3:
+					both(".[" + lit + "]?")
+				default:
+					both(lit)
+				}
 			}
 			n := c.N(25000, 600000)
 			for i := 0; i < n; i++ {
